@@ -1,4 +1,7 @@
+pub mod c01;
 pub mod c02;
+pub mod c03;
+pub mod c04;
 pub mod common;
 
 use crate::engine::{Check, Ctx, Report};
@@ -6,14 +9,20 @@ use serde_json::Value;
 
 pub fn run(id: &str, ctx: &Ctx) -> Option<Report> {
     Some(match id {
+        "C01" => c01::run(ctx),
         "C02" => c02::run(ctx),
+        "C03" => c03::run(ctx),
+        "C04" => c04::run(ctx),
         _ => return None,
     })
 }
 
 pub fn replay(id: &str, stage: &str, case: &Value) -> Option<Check> {
     Some(match id {
+        "C01" => c01::replay(stage, case),
         "C02" => c02::replay(stage, case),
+        "C03" => c03::replay(stage, case),
+        "C04" => c04::replay(stage, case),
         _ => return None,
     })
 }
